@@ -1,11 +1,18 @@
 (* C04: the model side of harness/src/cmds/odsgrid.rs.
      odsgrid file <path> <desc>        desc = tokens separated by ' ':
                                          R<attrs>                    a table:table-row
-                                         C<0|1><attrs>(~<hexpara>)*  a (covered-)table-cell with
-                                                                     its text:p paragraphs
+                                         C<0|1><attrs>(~<item>)*     a (covered-)table-cell with
+                                                                     its children: <hexpara> a text:p,
+                                                                     w<hex> white space, k a comment,
+                                                                     h<hexname>(:<hexpara>)* a drawing
+                                                                     object with its paragraphs,
+                                                                     n(:<hexpara>)* an annotation
+                                         W<hex> | K | X              between the cells of the current
+                                                                     row: text, a comment, anything
+                                                                     else (a CDATA section)
                                        attrs = k=v,k=v (hex of UTF-8), possibly empty
      odsgrid hook <cells> <cols> <reps>
-   Answers:  file: <model>##<coq spec or ->##p<counts_pos>e<extent_ok>
+   Answers:  file: <model>##<coq spec or ->##p<counts_pos>e<extent_ok>k<rows legal>
              hook: <model>##<coq spec or -> *)
 open Conv
 open Prelude
@@ -29,7 +36,26 @@ let parse_table (s : string) : titem list =
   let flush () =
     match !cur with
     | None -> ()
-    | Some (a, cells) -> rows := TRow { xr_attrs = a; xr_cells = List.rev cells } :: !rows; cur := None in
+    | Some (a, cells) -> rows := TRow { xr_attrs = a; xr_items = List.rev cells } :: !rows; cur := None in
+  let row_item it =
+    match !cur with
+    | Some (ra, cells) -> cur := Some (ra, it :: cells)
+    | None -> failwith "row item outside a row" in
+  let parse_xitem (p : string) : xitem =
+    if p = "" then XPara [] else
+    let body = String.sub p 1 (String.length p - 1) in
+    match p.[0] with
+    | 'w' -> XWs (scalars_of_hex body)
+    | 'k' -> XComment
+    | 'h' ->
+      (match String.split_on_char ':' body with
+       | n :: ps -> XShape (scalars_of_hex n, List.map scalars_of_hex ps)
+       | [] -> failwith "bad shape")
+    | 'n' ->
+      (match String.split_on_char ':' body with
+       | _ :: ps -> XAnnot (List.map scalars_of_hex ps)
+       | [] -> XAnnot [])
+    | _ -> XPara (scalars_of_hex p) in
   List.iter (fun tok ->
       if tok <> "" then begin
         let body = String.sub tok 1 (String.length tok - 1) in
@@ -43,11 +69,11 @@ let parse_table (s : string) : titem list =
           let head = List.hd parts in
           let cov = head.[0] = '1' in
           let a = parse_attrs (String.sub head 1 (String.length head - 1)) in
-          let paras = List.map scalars_of_hex (List.tl parts) in
-          (match !cur with
-           | Some (ra, cells) ->
-             cur := Some (ra, { xc_covered = cov; xc_attrs = a; xc_paras = paras } :: cells)
-           | None -> failwith "cell outside a row")
+          let items = List.map parse_xitem (List.tl parts) in
+          row_item (RCell { xc_covered = cov; xc_attrs = a; xc_items = items })
+        | 'W' -> row_item (RText (scalars_of_hex body))
+        | 'K' -> row_item RComment
+        | 'X' -> row_item ROther
         | _ -> failwith "bad token"
       end) toks;
   flush ();
@@ -100,16 +126,20 @@ let run_file (args : string list) : string =
   let xrows = rows_of items in
   let model = outcome_str pair_str (read_table_items (items @ [TClose k_table_table])) in
   let spec, flags =
-    match map_outcome read_xrow xrows with
+    (* the spec is computed on the flat rows (cells alone, paragraphs alone): what the layout of
+       the rows does is the model's business *)
+    let legal = List.for_all xrow_legal xrows in
+    match map_outcome read_xrow (List.map flat_row xrows) with
     | Ok rows ->
       let cost =
         List.fold_left (fun acc r ->
             let w = List.fold_left (fun a c -> a +. approx c.ce_rep) 0.0 r.re_cells in
             acc +. approx r.re_rep *. (w +. 1.0)) 0.0 rows in
       let flags =
-        Printf.sprintf "p%de%d" (if counts_pos rows then 1 else 0) (if extent_ok rows then 1 else 0) in
+        Printf.sprintf "p%de%dk%d" (if counts_pos rows then 1 else 0) (if extent_ok rows then 1 else 0)
+          (if legal then 1 else 0) in
       ((if cost <= 400000.0 then pair_str (ods_spec_table rows) else "-"), flags)
-    | _ -> ("-", "p-e-") in
+    | _ -> ("-", "p-e-k-") in
   model ^ "##" ^ spec ^ "##" ^ flags
 
 let nums (s : string) : BinNums.coq_N list = List.map n_of_string (split_on ',' s)
